@@ -45,7 +45,8 @@ CLAIMS = {
           "Floating-point steps inside the checkers have no panic site (casts saturate) and are covered by the grid only."),
     design_ref="DESIGN.md §6 C12",
     technique="Lean 4 proof (validity decision logic; totality of the Except-modelled panic sites; poisoning induction) + exhaustive-enum differential validation + no-panic Spec in child processes",
-    note=NOTE_COMMON + " Built with overflow checks on (dev profile). Found and fixed with this check: D5 (Associated flow rule panicked at check, c7e8a84), D12 (hotspot in-flight counter wrapped, 8944323), "
+    note=NOTE_COMMON + " Built with overflow checks on (dev profile). Characterised, not asserted: a breaker window of u32::MAX one-millisecond buckets is accepted and aborts the process "
+         "when allocated (memory; far outside the property's interval range; 600000 one-millisecond buckets are exercised and work). Found and fixed with this check: D5 (Associated flow rule panicked at check, c7e8a84), D12 (hotspot in-flight counter wrapped, 8944323), "
          "D13 (warm-up token arithmetic overflowed under both flow locks for u32::MAX cold factor / saturating thresholds, 74e7dc6); D4 (append of an invalid rule poisoned RULE_MAP) was fixed under C10."),
  "C17": dict(
     category="proof",
